@@ -304,3 +304,32 @@ Theorem C16_left_element_never_inherited :
     lookup k_fwd o = Some (s2l "for=192.0.2.7"%string).
 Proof. exact left_element_never_inherited. Qed.
 Print Assumptions C16_left_element_never_inherited.
+
+(* ---- (k) every well-formed header set is accepted.  Spec.wf_headers is the grammar of the property
+   text: X-Forwarded-For / -Host: a comma list of OWS node OWS or OWS DQUOTE node DQUOTE OWS (node: ALPHA
+   DIGIT . - _ : [ ], not beginning with ":"; covers IPv4, bracketed IPv6 with port, obfuscated
+   identifiers); X-Forwarded-Proto: http / https in any case, bare or quoted; X-Forwarded-Port: a
+   numeral, bare or quoted; Forwarded: elements of token=value pairs separated by ";" without
+   whitespace, for/by/host a node, proto a scheme, bare or quoted, parameter names in any case,
+   empty pairs and extension parameters allowed.  Such a request has no refusal reason for any count. *)
+From WV Require Import Proof.ProxyConverse4.
+Theorem C16_wellformed_no_reason : forall tph k e, wf_headers tph e = true -> refusal_reason tph k e = None.
+Proof. exact wellformed_no_reason. Qed.
+Print Assumptions C16_wellformed_no_reason.
+
+Theorem C16_wellformed_accepted : forall c e p,
+  on_trusted_path c e = true -> has_key k_url_scheme e -> trusted_proxy_count c = Zpos p ->
+  wf_headers (tph_of c) e = true ->
+  exists o, middleware c e = Ok o /\
+            forall key, lookup key o = spec_out (tph_of c) (Pos.to_nat p) (clear_untrusted c) e key.
+Proof. exact wellformed_accepted. Qed.
+Print Assumptions C16_wellformed_accepted.
+
+Theorem C16_wellformed_nonvacuous :
+  wf_headers [n_fwd] (ex_env [(k_fwd, s2l "For=""[2001:db8::1]:4711"";Host=example.com:8443;proto=HTTPS, for=_hidden;by=10.0.0.9"%string)]) = true /\
+  wf_headers [n_xff; n_xfh; n_xfproto; n_xfport]
+    (ex_env [(k_xff, s2l "203.0.113.9, ""[2001:db8::7]:99"" ,	10.0.0.2"%string); (k_xfh, s2l "example.com:8443"%string);
+             (k_xfproto, s2l """https"""%string); (k_xfport, s2l "8443"%string)]) = true /\
+  wf_headers [n_fwd] (ex_env [(k_fwd, s2l "for=:80"%string)]) = false.
+Proof. exact wellformed_nonvacuous. Qed.
+Print Assumptions C16_wellformed_nonvacuous.
